@@ -45,13 +45,31 @@ theorem getitem_dotted_of_getitem (b : Bool) : ∀ (p : Path) (t : Val) (v : Val
 theorem getitem_paths_any_class (b : Bool) (t : Val) (h : wf t = true) (p : Path) (v : Val) (hm : (p, v) ∈ items t) :
     getItemC b t p = .ok v := getitem_dotted_of_getitem b p t v (getitem_paths t h p v hm)
 
-/-- **paths spelled as dotted STRINGS** (`tree_getitem(t, 'a.b.c')`, part of `observe_at`; review t2: no theorem): the code splits
-the string on dots first (`_tree.py`: `path.split('.')`; driver op `gets`: `String.splitOn`), so the string spelling `s` of a
-listed path `p` reads `p`'s leaf exactly when splitting gives `p` back (`hs`: the join/split round trip - it holds iff `p` is
-non-empty and no key of `p` holds a dot; a fact about `str.split`, assumed and sampled, see the `#guard`s below) -/
+/-- **the join / split round trip of dot-free keys** (review v2 C15: was a hypothesis): joining a non-empty list of keys none of
+which holds a dot and splitting the string on dots (`splitDots` = core's `String.split '.'`, the function the model and the driver
+op `gets` use) gives the list back.  From core's `String.toList_split_intercalate`. -/
+theorem splitDots_intercalate (p : List String) (hp : p ≠ []) (hd : ∀ k ∈ p, '.' ∉ k.toList) :
+    splitDots (".".intercalate p) = p := by
+  have h := String.toList_split_intercalate (c := '.') (l := p) hd
+  have e : String.singleton '.' = "." := by decide
+  rw [e] at h
+  simp only [splitDots, h, hp, if_false]
+
+/-- **paths spelled as dotted STRINGS** (`tree_getitem(t, 'a.b.c')`, part of `observe_at`): the code splits the string on dots first
+(`_tree.py`: `path.split('.')`; model / driver op `gets`: `splitDots`), so the string spelling `s` of a listed path `p` reads `p`'s
+leaf whenever splitting gives `p` back (`hs`) ... -/
 theorem getitem_string_paths (b : Bool) (t : Val) (h : wf t = true) (p : Path) (v : Val) (hm : (p, v) ∈ items t)
-    (s : String) (hs : s.splitOn "." = p) : getItemC b t (s.splitOn ".") = .ok v := by
+    (s : String) (hs : splitDots s = p) : getItemC b t (splitDots s) = .ok v := by
   rw [hs]; exact getitem_paths_any_class b t h p v hm
+
+/-- ... which is the case for **every listed path whose keys are dot-free**: its dotted spelling `'.'.join(p)` reads its leaf.
+No hypothesis about splitting is left (`splitDots_intercalate`); a listed path is non-empty because branches are (`wf`). -/
+theorem getitem_dotted_spelling (b : Bool) (t : Val) (h : wf t = true) (p : Path) (v : Val) (hm : (p, v) ∈ items t)
+    (hp : p ≠ []) (hd : ∀ k ∈ p, '.' ∉ k.toList) : getItemC b t (splitDots (".".intercalate p)) = .ok v :=
+  getitem_string_paths b t h p v hm _ (splitDots_intercalate p hp hd)
+
+example : getItemC true (.dict [("a", .dict [("b", .cell (.int 6))])]) (splitDots (".".intercalate ["a", "b"])) = .ok (.cell (.int 6)) :=
+  getitem_dotted_spelling true _ (by decide) ["a", "b"] _ (by decide) (by simp) (by decide)
 
 /-- ... and NOT otherwise: in `{'a.b': 5, 'a': {'b': 6}}` the path `('a.b',)` is listed with leaf 5, but its string spelling
 `'a.b'` is split into the OTHER listed path `('a', 'b')` and reads 6 (real code: `tree_getitem({'a.b':5,'a':{'b':6}}, 'a.b') == 6`).
@@ -65,9 +83,10 @@ theorem getitem_string_dotted_key_witness :
     getItemC true (.dict [("a.b", .cell (.int 5)), ("a", .dict [("b", .cell (.int 6))])]) ["a", "b"] = .ok (.cell (.int 6)) := by
   refine ⟨by decide, by decide, ?_, ?_⟩ <;> simp [getItemC, lookup, pure, Except.pure]
 
-#guard ".".intercalate ["a", "b", "c"] == "a.b.c" && "a.b.c".splitOn "." == ["a", "b", "c"] && "a".splitOn "." == ["a"]
-#guard (".".intercalate ["a.b"]).splitOn "." == ["a", "b"]            -- a key holding a dot does not survive the round trip
-#guard (match getItemC true (.dict [("a.b", .cell (.int 5)), ("a", .dict [("b", .cell (.int 6))])]) ("a.b".splitOn ".") with
+#guard ".".intercalate ["a", "b", "c"] == "a.b.c" && splitDots "a.b.c" == ["a", "b", "c"] && splitDots "a" == ["a"] && splitDots "" == [""]
+#guard splitDots "a..b." == "a..b.".splitOn "." && splitDots ".a" == ["", "a"]     -- python's 'a..b.'.split('.') == ['a', '', 'b', '']
+#guard splitDots (".".intercalate ["a.b"]) == ["a", "b"]            -- a key holding a dot does not survive the round trip
+#guard (match getItemC true (.dict [("a.b", .cell (.int 5)), ("a", .dict [("b", .cell (.int 6))])]) (splitDots "a.b") with
   | .ok v => v == .cell (.int 6) | _ => false)
 
 /-- for plain dicts the class-aware walk IS the plain walk -/
